@@ -137,6 +137,9 @@ func (c *descCtx) d(v ssa.Value) string {
 		}
 		return x.Op.String() + c.d(x.X)
 	case *ssa.BinOp:
+		if isRangeIndex(x) {
+			return "idx(range)"
+		}
 		return "(" + c.d(x.X) + " " + x.Op.String() + " " + c.d(x.Y) + ")"
 	case *ssa.Convert:
 		return c.d(x.X)
